@@ -80,6 +80,15 @@ CLAIMED = {
  "C15": ("fault_enumeration", "crash-image enumeration at every filesystem mutation callback + shadow durability model fed by fsync syscalls observed with strace; every image reopened by a fresh store and engine",
          "Each history runs in a child process under strace; after every filesystem mutation the directory is copied (process-crash image) with the ack set at that instant; durability facts (which file/directory fsyncs really returned between two crash points) come from the syscall trace, not from the hooks. Process-crash, torn-write and power-loss images (durable namespace + prefixes/subsets of pending namespace operations; unsynced tails dropped, truncated or zero-filled) must each recover: scan succeeds, yielded files fully readable, match-all query without error, every row acked before the crash point present, nothing never ingested, nothing more often than ingested.",
          "Exhaustive over the mutation boundaries of each explored history; power-loss subsets sampled. Conservative POSIX model. If strace cannot run the hooks are trusted for durability (recorded in evidence).", "6/C15"),
+ "C03": ("exploration", "DeepEqual against the encoding/json round trip + fingerprint-then-mutate monitor over concurrent queries, under the race detector (+checkptr)",
+         "16-48 concurrent queries over blocks of varied sizes and all compressions with PRNG delays at the query schedule points; every returned row must equal the encoding/json round trip of the ingested row, and after the harness deep-mutates half of the retained rows every other retained row and a fresh query must be unchanged.",
+         "Rows encoding/json cannot decode are compared by _vid only. Known finding: raw JSON with repeated keys.", "6/C03"),
+ "C19": ("exploration", "mutation workload (byte-level and CRC-consistent framing) with panic/allocation/row-content monitors",
+         "Thousands of mutated files (bit flips, bursts, truncations at structural boundaries, extensions, splices, zeroed ranges; footer re-encoded with consistent CRC and boundary-valued framing fields), each written to disk before use: no panic or fatal error, allocation per call bounded by 16x(file + original uncompressed sizes) + 8 MiB, original-metadata queries return the exact answer or an error, every returned row is a written row.",
+         "UncompressedSize/Rows are not mutated (not among the framing fields quantified over).", "6/C19"),
+ "C26": ("exploration", "statistical probe of every written filter with never-inserted strings against the documented 3x tolerance + 6 sigma",
+         "Filters of every level and kind, holding 1 to 50 000 (thorough 300 000) distinct entries at rates 0.3..1e-4, flushed, multi-block and merged, are read back through the public helpers and probed with N >= 2e5 absent strings; the observed rate must stay within 3p + 6 sigma.",
+         "Statistical: false-alarm probability bounded by the 6 sigma margin plus the 3x slack (worst observed for n >= 50 is about 1.1x). Known finding for n < 50.", "6/C26"),
 }
 
 NOT_YET = "check not built yet in this session (design in DESIGN.md section 6); not claimed until its monitor exists and is silent on the unchanged tree"
